@@ -129,8 +129,37 @@ def run(ctx):
                         if isinstance(a_, tuple) and a_[0] == "call" and a_[1] == MOD + "is_supported" and list_of(a_[2][1]) == "IP":
                             held_ok = True
                 ck.ob("C08-R2", NP, "is_supported-is-given-input_pressed_keys-as-the-held-set", held_ok)
-    ck.ob("C08-R2", NP, "absorbed-argument-is-a-branch-assigned-local", absorbed_local is not None)
     rows_np = {}
+    by_selection = []
+    if absorbed_local is None:
+        # the list is built inside a closure (`mappings.get(&k).and_then(|ms| { ..; ms.iter().rev().find(..) })`): the
+        # walker has spliced that closure into newly_press's paths, so each find()-selection carries the value that is
+        # handed to is_supported on its path together with the guards that led there
+        for sl in ktloops.selections(ctx, np_, ANM, 2):
+            if sl.form != "find" or sl.problems:
+                continue
+            for a_, v_ in sl.pred:
+                if isinstance(a_, tuple) and a_[0] == "call" and a_[1] == MOD + "is_supported" and v_ is True and len(a_[2]) > 2:
+                    for cx in sl.contexts:
+                        by_selection.append((a_[2][2], cx))
+    ck.ob("C08-R2", NP, "absorbed-argument-is-a-branch-assigned-local", absorbed_local is not None or bool(by_selection))
+    for val, guards in by_selection:
+        row = should_absorb_row(guards, is_AT, k)
+        want = expected_should_absorb(row)
+        if isinstance(val, tuple) and val[0] == "clone" and list_of(val[1]) == "AB":
+            got = True
+        elif isinstance(val, tuple) and val[0] == "call" and method_name(val[1]) == "new" and not val[2]:
+            got = False
+        else:
+            got = None
+        key = tuple(sorted(row.items()))
+        if key in rows_np and rows_np[key] != got:
+            got = None
+        rows_np[key] = got
+        ck.ob("C08-R2", NP, "absorbed-list=%s" % ",".join("%s=%s" % kv for kv in key), want is not None and got == want,
+              detail="hides mapped_absorbed_keys: %s; specification (no trigger or trigger != pressed key): %s" % (got, want))
+    if by_selection:
+        ck.ob("C08-R2", NP, "both-rows(trigger-is/is-not-the-pressed-key)", len(rows_np) == 2, detail=str(rows_np))
     if absorbed_local is not None:
         for p in mir.walk_function(np_):
             sets = [e for e in p.events if e.kind == "set" and e.a == absorbed_local]
